@@ -540,7 +540,6 @@ type tokInfo struct {
 	extBy        string        // "", safe, unsafe
 	sid          string        // session the token lives in (session backends)
 	unstored     bool          // fault runs: a storage Set failed in the request that handed it out
-	delFault     bool          // fault runs: DeleteToken's storage delete failed
 	consumeFault bool          // fault runs: the delete that consumed it (single use) failed
 }
 
@@ -1092,8 +1091,8 @@ func (rn *runner) step(s *step) {
 	// With the session middleware in front the session is saved after the handler returned, so the
 	// whole request counts as the middleware phase.
 	var lookupFault, setFault, delFault, anyFault, sawGet bool
-	lastAnySetErr, sawSet := false, false    // middleware phase: the Set that carries the issued token
-	var hDelFault, hAnyFault, mAnyFault bool // handler phase (DeleteToken) / middleware phase
+	lastAnySetErr, sawSet := false, false // middleware phase: the Set that carries the issued token
+	var hAnyFault, mAnyFault bool         // handler phase (DeleteToken) / middleware phase
 	reqOps := rn.opsSince(opsFrom)
 	split := len(reqOps)
 	if w.opsAtEntry >= opsFrom && cfg.backend != bSessMW {
@@ -1105,9 +1104,6 @@ func (rn *runner) step(s *step) {
 		}
 		if i >= split {
 			hAnyFault = hAnyFault || op.Err
-			if op.Kind == "delete" {
-				hDelFault = hDelFault || op.Err
-			}
 			continue
 		}
 		mAnyFault = mAnyFault || op.Err
@@ -1148,6 +1144,9 @@ func (rn *runner) step(s *step) {
 
 	line := fmt.Sprintf("t=%s c%d %s %s /%s [%s] ext=%q cookie=%q sid=%q origin=%s referer=%s -> %d reached=%v set-cookie=%q expired=%v generated=%v",
 		now.Round(time.Millisecond), s.cl, smNames[q.mode], q.method, q.route, s.label, q.ext, q.ck, q.sid, hv(q.origin), hv(q.referer), resp.Status, reached, ckVal, ckExpired, made)
+	if q.route == "del" && reached {
+		line += fmt.Sprintf(" DeleteToken()=%q", delErrOf(ents))
+	}
 	if anyFault {
 		line += fmt.Sprintf(" STORAGE-FAULT(lookup=%v set=%v delete=%v)", lookupFault, setFault, delFault)
 	}
@@ -1196,7 +1195,7 @@ func (rn *runner) step(s *step) {
 		ckBefore, _ := m.status(q.ck, q.sid, now)
 		if q.route == "del" && reached {
 			// the application deleted the token itself: no valid cookie is expected afterwards
-			rn.applyDelete(q, hDelFault, hAnyFault)
+			rn.applyDelete(q, delErrOf(ents), hAnyFault)
 			cl.tok = ""
 			if ckSet && !ckExpired {
 				e.Stat("delete_token_left_cookie", 1)
@@ -1285,10 +1284,6 @@ func (rn *runner) step(s *step) {
 	switch {
 	case deny != "" && reached:
 		switch {
-		case ti != nil && ti.delFault && extReason == "after-delete":
-			// DeleteToken swallowed a storage error and the token is still accepted; whether the
-			// statement covers this is debatable: counted, not reported
-			e.Stat("fault_delete_token_error_token_still_usable", 1)
 		case ti != nil && ti.consumeFault && extReason == "consumed-single-use":
 			if isSession(cfg.backend) {
 				// the session that holds the token could not be loaded / saved while the token was consumed
@@ -1371,7 +1366,7 @@ func (rn *runner) step(s *step) {
 	}
 	foreignSession := isSession(cfg.backend) && s.sidSel == selOther
 	if q.route == "del" {
-		rn.applyDelete(q, hDelFault, hAnyFault)
+		rn.applyDelete(q, delErrOf(ents), hAnyFault)
 		if !foreignSession {
 			cl.tok = ""
 			handOut(cl, "unsafe")
@@ -1388,24 +1383,49 @@ func (rn *runner) step(s *step) {
 	cl.sid = sidAfter
 }
 
-// applyDelete: the handler called DeleteToken.
-func (rn *runner) applyDelete(q *wire, delFault, anyFault bool) {
+// applyDelete: the handler called DeleteToken. What the model concludes follows from what the call
+// reported and from what it was given to go by, never from the mere fact that it was called:
+//
+//   - it returned an error and no storage call failed in the handler: nothing was deleted (e.g. the
+//     request carried no CSRF cookie, ErrTokenNotFound) -> no change;
+//   - a storage call failed while it ran: the effect on the store is not known -> the tokens it
+//     could have removed become "unknown" (no verdict either way from here on);
+//   - it returned nil: the token named by the request's CSRF cookie (storage backends) or the
+//     session's token (session backends) is deleted.
+func (rn *runner) applyDelete(q *wire, delErr string, handlerFault bool) {
 	m := rn.m
+	var hit []*tokInfo
 	if isSession(rn.hs.cfg.backend) {
 		for _, ti := range m.tokens {
 			if ti.sid == q.sid && q.sid != "" && ti.state != stDead && ti.state != stUnknown {
-				ti.state, ti.reason = stDead, "after-delete"
-				ti.delFault = ti.delFault || anyFault
+				hit = append(hit, ti)
 			}
 		}
-		return
+	} else if ti := m.tokens[q.ck]; ti != nil && ti.state != stUnknown && ti.state != stDead {
+		hit = append(hit, ti)
 	}
-	if ti := m.tokens[q.ck]; ti != nil && ti.state != stUnknown {
-		if ti.state != stDead {
+	switch {
+	case handlerFault:
+		rn.e.Stat("delete_token_under_store_fault_state_unknown", 1)
+		for _, ti := range hit {
+			ti.state = stUnknown
+		}
+	case delErr != "":
+		rn.e.Stat("delete_token_reported_error_nothing_deleted", 1)
+	default:
+		for _, ti := range hit {
 			ti.state, ti.reason = stDead, "after-delete"
 		}
-		ti.delFault = ti.delFault || delFault
 	}
+}
+
+func delErrOf(ents []entry) string {
+	for _, en := range ents {
+		if en.route == "del" {
+			return en.delErr
+		}
+	}
+	return ""
 }
 
 func hv(h *hdrVal) string {
